@@ -3,31 +3,41 @@ import DawgieVerif.Model.Reprocess
 
 /-! Line protocol for `Model/Reprocess.lean`:
 
-`(repro run <n> <graph> (<target> ..) (<outs of node 0> <outs of node 1> ..) (<op> ..))`
+`(repro run <n> <graph> (<target> ..) (<outs of node 0> <outs of node 1> ..) (<values written by
+analyses> ..) (<op> ..))`
 
 ops: `(s <scheduler op>)`, `(poke x t c)`, `(read x t (c ..))` (contents found, in the order
-of the declared inputs of `x`), `(write x t (c ..))` (contents in the
+of `readCells`: per declared input, per target read), `(write x t (c ..))` (contents in the
 order of the outs of `x`), `(reply x t rid)`, `(check)`.  One observation per op. -/
 namespace DawgieVerif.Reprocess
 open DawgieVerif DawgieVerif.Sched
 
-/-- a report that will make `(c, t)` pending is on its way (`Caused`) -/
-def causedB (g : Graph) (w : W) (c : Name) (t : Target) : Bool :=
-  w.done.any fun e => e.1.2 == t && decide (c ∈ dependents g e.1.1 e.2)
+/-- a report that will make `(c, u)` pending is on its way (`Caused`) -/
+def causedB (g : Graph) (w : W) (c : Name) (u : Target) : Bool :=
+  w.done.any fun e =>
+    decide (c ∈ dependents g e.1.1 e.2) && decide (u ∈ wanted g w.s.targets [e.1.2] c)
 
 /-- `Pend` -/
 def pendB (g : Graph) (w : W) (c : Name) (t : Target) : Bool :=
   decide (t ∈ (w.s.node c).todo) || causedB g w c t
 
-/-- the load found the latest stored content of every declared input -/
-def agreeB (g : Graph) (w : W) (x : Name) (t : Target) (sn : Val → Content) : Bool :=
-  (g.consumes x).all fun v => sn v == w.store v t
+/-- the cells unit `(x, u)` reads, in the order the harness lists what the real load found -/
+def readCells (g : Graph) (prodA : Val → Bool) (T : List Target) (x : Name) (u : Target) :
+    List (Val × Target) :=
+  (g.consumes x).flatMap fun v => (readsT g prodA T x u v).map fun t => (v, t)
+
+/-- the load found the latest stored content of every cell it reads -/
+def agreeB (g : Graph) (prodA : Val → Bool) (T : List Target) (w : W) (x : Name) (t : Target)
+    (sn : Val → Target → Content) : Bool :=
+  (g.consumes x).all fun v => (readsT g prodA T x t v).all fun t' => sn v t' == w.store v t'
 
 /-- the conditions of `WOk` for a load -/
-def okRead (g : Graph) (w : W) (x : Name) (t : Target) (sn : Val → Content) : Bool :=
+def okRead (g : Graph) (prodA : Val → Bool) (T : List Target) (w : W) (x : Name) (t : Target)
+    (sn : Val → Target → Content) : Bool :=
   decide ((x, t) ∈ w.s.inflight) && (lookupK (x, t) w.reading).isNone &&
     (lookupK (x, t) w.done).isNone &&
-    ((g.consumes x).all fun v => sn v == w.store v t || pendB g w x t)
+    ((g.consumes x).all fun v => (readsT g prodA T x t v).all fun t' =>
+      sn v t' == w.store v t' || pendB g w x t)
 
 def okWrite (w : W) (x : Name) (t : Target) : Bool := (lookupK (x, t) w.reading).isSome
 
@@ -75,19 +85,23 @@ def retabW (n : Nat) (vals : List Val) (ts : List Target) (w : W) : W :=
 
 def ofB (b : Bool) : Sx := Sx.ofBool b
 
-def stepIO (g : Graph) (n : Nat) (outs : Name → List Val) (vals : List Val) (ts : List Target)
-    (w : W) : IOp → W × Sx
+def snapOf (cells : List (Val × Target)) (cs : List Content) : Val → Target → Content :=
+  fun v t => ((cells.zip cs).lookup (v, t)).getD 0
+
+def stepIO (g : Graph) (n : Nat) (outs : Name → List Val) (prodA : Val → Bool) (vals : List Val)
+    (ts : List Target) (w : W) : IOp → W × Sx
   | .op (.sched o) =>
     let r := Sched.stepObs' g n w.s o
     ({ w with s := r.1 }, Sx.list [Sx.atom "s", r.2])
   | .op (.poke x t c) => (poke w x t c, Sx.list [Sx.atom "poke"])
   | .op (.read x t sn) => (read w x t sn, Sx.list [Sx.atom "read"])
   | .readL x t cs =>
-    -- contents found, in the order of `g.consumes x`
-    let sn := outcOf (g.consumes x) cs
-    let ok := okRead g w x t sn && cs.length == (g.consumes x).length
-    (read w x t sn, Sx.list [Sx.atom "read", ofB ok, ofB (agreeB g w x t sn), Sx.ofNat (w.source x t),
-                             ofNats ((g.consumes x).map fun v => w.store v t)])
+    -- contents found, in the order of `readCells`
+    let cells := readCells g prodA ts x t
+    let sn := snapOf cells cs
+    let ok := okRead g prodA ts w x t sn && cs.length == cells.length
+    (read w x t sn, Sx.list [Sx.atom "read", ofB ok, ofB (agreeB g prodA ts w x t sn), Sx.ofNat (w.source x t),
+                             ofNats (cells.map fun c => w.store c.1 c.2)])
   | .op (.write x t outc) => (write outs w x t outc, Sx.list [Sx.atom "write"])
   | .writeL x t cs =>
     let outc := outcOf (outs x) cs
@@ -104,27 +118,28 @@ def stepIO (g : Graph) (n : Nat) (outs : Name → List Val) (vals : List Val) (t
     let quiet := w.s.que.isEmpty && w.s.inflight.isEmpty && w.dirty.isEmpty && w.done.isEmpty &&
       w.reading.isEmpty
     (w, Sx.list [Sx.atom "check", ofB quiet,
-                 Sx.list (ts.map fun t => ofNats (vals.map fun v => w.store v t)),
+                 Sx.list ((ts ++ [ALL]).map fun t => ofNats (vals.map fun v => w.store v t)),
                  ofPairs w.dirty])
 
-def runIO (g : Graph) (n : Nat) (outs : Name → List Val) (vals : List Val) (ts : List Target) :
-    W → List IOp → List Sx
+def runIO (g : Graph) (n : Nat) (outs : Name → List Val) (prodA : Val → Bool) (vals : List Val)
+    (ts : List Target) : W → List IOp → List Sx
   | _, [] => []
   | w, o :: os =>
-    let r := stepIO g n outs vals ts w o
-    r.2 :: runIO g n outs vals ts (retabW n vals ts r.1) os
+    let r := stepIO g n outs prodA vals ts w o
+    r.2 :: runIO g n outs prodA vals ts (retabW n vals (ts ++ [ALL]) r.1) os
 
 def W.init (ts : List Target) : W :=
   { s := St.init ts, source := fun _ _ => 0, store := fun _ _ => 0, seen := [], reading := [],
     done := [], dirty := [] }
 
+/-- `(run <n> <graph> (<target> ..) (<outs of node 0> ..) (<values written by analyses> ..) (<op> ..))` -/
 def handle : List Sx → Sx
-  | [Sx.atom "run", n, g, targets, outs, ops] =>
-    match n.nat?, graph? g, targets.nats?, natLists? outs, ops.list?.bind (·.mapM iop?) with
-    | some n, some g, some ts, some outs, some ops =>
+  | [Sx.atom "run", n, g, targets, outs, avals, ops] =>
+    match n.nat?, graph? g, targets.nats?, natLists? outs, avals.nats?, ops.list?.bind (·.mapM iop?) with
+    | some n, some g, some ts, some outs, some avals, some ops =>
       let outsF : Name → List Val := fun x => outs.getD x []
-      Sx.list (runIO g n outsF outs.flatten ts (W.init ts) ops)
-    | _, _, _, _, _ => Sx.err "repro-args"
+      Sx.list (runIO g n outsF (fun v => decide (v ∈ avals)) outs.flatten ts (W.init ts) ops)
+    | _, _, _, _, _, _ => Sx.err "repro-args"
   | _ => Sx.err "repro-op"
 
 end DawgieVerif.Reprocess
